@@ -84,7 +84,8 @@ KINDS = ["at4-group-control", "at4-ac-status-2", "at4-ext-version-request", "at4
       assumptions=["Crc16Modbus.calculate by its contract (proved in crc16.calculate)"])
 def send_then_receive(h):
     if not h.symbolic:
-        return
+        from replay import native_readings as NR
+        return NR.frame_send_then_receive(h, messages, KINDS)
     kind = h.choice("message_kind", KINDS)
     regmod, msg = messages(h, kind)
     reg = h.get(regmod + ":INSTANCE")
